@@ -1218,7 +1218,7 @@ def demangle(names):
     return dict(zip(names, out))
 
 
-def translate(ll_path, roots_rx, boundary_rx, out_prefix, names=None, no_names=False, types=None, gnames=None):
+def translate(ll_path, roots_rx, boundary_rx, out_prefix, names=None, no_names=False, types=None, gnames=None, opt_names=None):
     """roots_rx / boundary_rx: regexes on demangled signatures. names: {c_alias: regex-on-demangled (must match exactly one function)}.
     Writes out_prefix_decl.h, out_prefix_body.c, out_prefix.json. Returns summary dict."""
     text = open(ll_path).read()
@@ -1333,8 +1333,11 @@ def translate(ll_path, roots_rx, boundary_rx, out_prefix, names=None, no_names=F
     decl += protos
     # aliases
     alias = {}
-    for al, rx in (names or {}).items():
+    allnames = dict(names or {}); allnames.update(opt_names or {})
+    for al, rx in allnames.items():
         hits = [n for n in em.protos if n in m.funcs and re.search(rx, dm[n])]
+        if not hits and al in (opt_names or {}):
+            continue        # optional alias (an abstract callee the code under verification may or may not call)
         if len(hits) != 1:
             hits2 = [n for n in hits if n in em.emitted or n in bnd]
             if len(hits2) == 1: hits = hits2
@@ -1389,6 +1392,7 @@ def main():
     ap.add_argument('--root', action='append', default=[])
     ap.add_argument('--boundary', action='append', default=[])
     ap.add_argument('--name', action='append', default=[], help='alias=regex')
+    ap.add_argument('--name-opt', dest='name_opt', action='append', default=[], help='alias=regex (optional: skipped when the unit does not contain the function)')
     ap.add_argument('--type', action='append', default=[], help='alias=qualified C++ class name')
     ap.add_argument('--global', dest='gl', action='append', default=[], help='alias=llvm global name')
     ap.add_argument('--out')
@@ -1402,7 +1406,7 @@ def main():
         return 0
     try:
         names = dict(x.split('=', 1) for x in a.name)
-        translate(a.ll, a.root, a.boundary, a.out, names, types=dict(x.split('=', 1) for x in a.type), gnames=dict(x.split('=', 1) for x in a.gl))
+        translate(a.ll, a.root, a.boundary, a.out, names, types=dict(x.split('=', 1) for x in a.type), gnames=dict(x.split('=', 1) for x in a.gl), opt_names=dict(x.split('=', 1) for x in a.name_opt))
     except (Unsupported, SyntaxError, KeyError) as e:
         sys.stderr.write('ir2c: UNSUPPORTED: %s: %s\n' % (type(e).__name__, e))
         return 2
